@@ -119,3 +119,10 @@ Definition known_class (it : ity) (et : ty) : option known :=
 
 (* enum declarations whose automatic discriminants leave the 8-bit tag *)
 Definition discrims_overflow (ds : list N) : bool := existsb (fun d => (256 <=? d)%N) ds.
+
+(* the classes that remain once the fix candidates are applied (fw: C10-1, fz: C10-2);
+   [known_class_f false false = known_class], [known_class_f true true] is always None *)
+Definition known_class_f (fw fz : bool) (it : ity) (et : ty) : option known :=
+  if negb fz && is_zero_sized et then Some KZeroSizedElem
+  else if negb fw && (64 <? ibits it) then Some KWideIndex
+  else None.
